@@ -385,18 +385,97 @@ def _pick_nuc(present, absent, rec):
     return absent[rec[0] % len(absent)], False
 
 
-def run_program(out, tree, ops, queries=(), top=None, stats=None):
+def _held_check(out, held, where):
+    """Dicts the harness handed to armi setters stay the caller's: later edits must not write into them."""
+    for obj_, copy_ in held:
+        if not out.check(obj_ == copy_, "edit/caller-dict-modified",
+                         lambda: "%s: the dict passed earlier to setNumberDensities/updateNumberDensities was %r, is now %r" % (
+                             where, dict(sorted(copy_.items())), dict(sorted(obj_.items())))):
+            copy_.clear()
+            copy_.update(obj_)
+
+
+def run_program(out, tree, ops, queries=(), top=None, stats=None, handlers=None):
     """Apply each edit to armi, re-read the primitives, check read-back / untouched / additivity after every step."""
     C, _BARN = _consts()
     snap = _snapshot(tree)
     n_rej = 0
     n_done = 0
-    for step, op in enumerate(ops):
+    held = []  # [(dict object given to armi, private copy)]
+    work = list(ops)
+    step = -1
+    while work:
+        op = work.pop(0)
+        step += 1
         kind = op["op"]
+        if handlers and kind in handlers:
+            snap = handlers[kind](op, step, snap)
+            _held_check(out, held, "step %d %s" % (step, kind))
+            continue
         levels = [l for l in ("component", "block", "group", "assembly", "core") if l in tree.by_level]
+        if kind == "shareNDs":
+            # ---- one dict object handed to several components, then a single-component edit on one of them
+            comps = tree.by_level["component"]
+            chosen = []
+            for t in op["targets"]:
+                n = comps[t % len(comps)]
+                if n not in chosen:
+                    chosen.append(n)
+            if len(chosen) < 2 and len(comps) >= 2:
+                chosen.append(comps[(comps.index(chosen[0]) + 1) % len(comps)])
+            names0 = sorted(set().union(*[set(snap[n.leaves[0]][0]) for n in chosen]))
+            elems0 = {_elem(n)[0] for n in names0}
+            absent0 = [n for n in EXTRA_NUCS if n not in names0 and _elem(n)[0] not in elems0]
+            req = {}
+            for rec in op["items"]:
+                nuc, _h = _pick_nuc(names0, absent0, rec[:2])
+                req[nuc] = 0.0 if rec[3] else _val(rec[2])
+            mine = dict(req)
+            where = "step %d shareNDs on %s" % (step, [n.obj for n in chosen])
+            for k, n in enumerate(chosen):
+                if op["wipe"] and k % 2:
+                    n.obj.updateNumberDensities(req, wipe=True)
+                else:
+                    n.obj.setNumberDensities(req)
+            held.append((req, mine))
+            post_snap = _snapshot(tree)
+            inside = {n.leaves[0] for n in chosen}
+            for n in chosen:
+                got = post_snap[n.leaves[0]][0]
+                out.check(got == mine, "edit/read-back-shareNDs", lambda: "%s: %r holds %r, requested %r" % (where, n.obj, got, mine))
+            obad = [l for l in range(len(snap)) if l not in inside and snap[l][0] != post_snap[l][0]]
+            out.check(not obad, "edit/outside-target-changed",
+                      lambda: "%s: composition of %r (not a target) changed" % (where, tree.leaf_nodes[obad[0]].obj))
+            vbad = [l for l in range(len(snap)) if snap[l][1] != post_snap[l][1]]
+            out.check(not vbad, "edit/volume-changed-by-composition-edit", lambda: "%s: volume of %r changed" % (where, tree.leaf_nodes[vbad[0]].obj))
+            _held_check(out, held, where)
+            snap = post_snap
+            seen = set()
+            for n in chosen:
+                p = n
+                while p is not None and id(p) not in seen:
+                    seen.add(id(p))
+                    check_node(out, tree, p, snap)
+                    p = p.parent
+            n_done += 1
+            out.label("op:shareNDs@component", "shared:%d" % len(chosen))
+            out.nontrivial = True
+            # follow-ups: in-place edits of ONE of the components that were given the same dict
+            for j, th in enumerate(op["then"]):
+                tgt = chosen[(op["who"] + j) % len(chosen)]
+                th = dict(th)
+                if th["op"] in MASS_OPS and tgt.sf != 1.0 and EXCLUDE_KNOWN.get(SIG_COMP_MASS_SYM):
+                    th = {"op": "setND", "nuc": th["nuc"], "v": min(1.0, th["frac"] / 2.5), "zero": False}
+                th["level"] = 0
+                th["leaf"] = tgt.leaves[0]
+                work.insert(j, th)
+            continue
         level = levels[op["level"] % len(levels)]
         cands = tree.by_level[level]
-        if kind in MASS_OPS and level == "component":
+        if "leaf" in op:
+            cands = [tree.leaf_nodes[op["leaf"]]]
+            op = dict(op, t=0)
+        elif kind in MASS_OPS and level == "component":
             free = [n for n in cands if n.sf == 1.0]
             pick = cands[op["t"] % len(cands)]
             if EXCLUDE_KNOWN.get(SIG_COMP_MASS_SYM) and not op.get("known"):
@@ -511,17 +590,26 @@ def run_program(out, tree, ops, queries=(), top=None, stats=None):
             elif kind in ("setMassFracs", "setMassFrac"):
                 M = pre.total_mass()
                 req = {}
+                newcomers = []
                 for rec in op["items"][: 1 if kind == "setMassFrac" else 3]:
-                    if present:
-                        req[present[rec[0] % len(present)]] = rec[1]
+                    # rec = [index, fraction, wantAbsent]: a nuclide the object does not hold yet may be assigned too
+                    nuc, here = _pick_nuc(present, absent, [rec[0], len(rec) > 2 and rec[2]])
+                    req[nuc] = rec[1]
+                for nuc in req:
+                    if nuc not in pre.names:
+                        newcomers.append(nuc)
                 others = math.fsum(pre.mass(n) for n in present if n not in req)
                 if not req or M <= 0 or others <= 0 or any(pre.atoms[n] < 0 for n in present):
                     out.label("skip:massfrac-needs-other-nuclides")
                     continue
+                if newcomers:
+                    out.label("massfrac:new-nuclide" if len(newcomers) == len(req) else "massfrac:new-and-present")
+                    if not comp:
+                        reject = True  # documented: a composite cannot take a nuclide none of its children holds
                 T = math.fsum(req.values())
                 for nuc, fr in req.items():
                     expect[nuc] = fr * M * C / _weight(nuc)
-                    out.nontrivial = out.nontrivial or (not comp and holders(nuc) >= 2)
+                    out.nontrivial = out.nontrivial or (not comp and holders(nuc) >= 2) or (comp and nuc in newcomers)
                 rest, rest_factor = "scaled", (1.0 - T) * M / others
                 touched |= set(present)
                 if node.level in ("component", "block", "group"):
@@ -531,6 +619,8 @@ def run_program(out, tree, ops, queries=(), top=None, stats=None):
                     obj.setMassFrac(n1, f1)
                 else:
                     obj.setMassFracs(dict(req))
+                if reject:
+                    out.fail("edit/setMassFracs-absent-nuclide-accepted", "%s: %s held by no child, accepted" % (where, newcomers))
             else:
                 raise KeyError(kind)
         except ValueError as exc:
@@ -619,6 +709,7 @@ def run_program(out, tree, ops, queries=(), top=None, stats=None):
                 out.check(not bad, "edit/setNumberDensity-not-even-over-holders",
                           lambda: "%s: %s=%r over active volume fraction %r should give every holder %r; %r has %r" % (
                               where, nuc, val, avf, want, bad[0][0].obj, bad[0][1]))
+        _held_check(out, held, where)
         # -- additivity again, at the target and every ancestor
         snap = post_snap
         p = node
@@ -648,8 +739,18 @@ def _op_strategy(nlevels):
     known = st.just(False) if EXCLUDE_KNOWN.get(SIG_COMP_MASS_SYM) else st.booleans()
     item = st.tuples(st.integers(0, 200), st.integers(0, 8).map(lambda x: x == 0), _unit, st.integers(0, 9).map(lambda x: x == 0)).map(list)
     mitem = st.tuples(st.integers(0, 200), st.integers(0, 8).map(lambda x: x == 0), st.floats(0.01, 3.0).map(lambda x: round(x, 6))).map(list)
-    fitem = st.tuples(st.integers(0, 200), st.floats(0.01, 0.3)).map(list)
+    fitem = st.tuples(st.integers(0, 200), st.floats(0.01, 0.3), st.integers(0, 2).map(lambda x: x == 0)).map(list)
+    single = st.one_of(
+        st.fixed_dictionaries({"op": st.just("setND"), "nuc": _nucrec(), "v": _unit, "zero": st.integers(0, 9).map(lambda x: x == 0)}),
+        st.fixed_dictionaries({"op": st.sampled_from(["addMass", "setMass", "removeMass"]), "nuc": _nucrec(),
+                               "frac": st.floats(0.01, 2.5).map(lambda x: round(x, 6)), "known": st.just(False)}),
+        st.fixed_dictionaries({"op": st.just("updND"), "items": st.lists(item, min_size=1, max_size=2)}),
+    )
+    share = st.fixed_dictionaries({"op": st.just("shareNDs"), "targets": st.lists(tgt, min_size=2, max_size=3), "wipe": st.booleans(),
+                                   "items": st.lists(item, min_size=1, max_size=4), "who": st.integers(0, 2),
+                                   "then": st.lists(single, min_size=1, max_size=3)})
     return st.one_of(
+        share,
         st.fixed_dictionaries({"op": st.just("setND"), "level": lvl, "t": tgt, "nuc": _nucrec(), "v": _unit,
                                "zero": st.integers(0, 9).map(lambda x: x == 0)}),
         st.fixed_dictionaries({"op": st.sampled_from(["updND", "setNDs"]), "level": lvl, "t": tgt,
@@ -917,8 +1018,16 @@ def reactors_strategy(tier):
         "known": st.just(False) if EXCLUDE_KNOWN.get(SIG_CART_FULL) else st.booleans(),
         "queries": st.lists(_query, min_size=1, max_size=4),
         "sample": st.lists(st.integers(0, 200), min_size=1, max_size=2),
-        "ops": st.lists(_op_strategy(4), min_size=2, max_size=7),
+        # (one_of flattens nested alternatives, so the share of swaps is fixed by an explicit selector: 1 in 5)
+        "ops": st.lists(st.tuples(st.integers(0, 4), _op_strategy(4), _swap_op).map(lambda t: t[2] if t[0] == 0 else t[1]),
+                        min_size=2, max_size=7),
     })
+
+
+# exchange two assemblies the way FuelHandler.swapAssemblies does (a1.moveTo(loc2); a2.moveTo(loc1)); ``cross`` asks for a pair
+# whose symmetry factors differ (centre <-> off-centre, on a symmetry line <-> off the line)
+_swap_op = st.fixed_dictionaries({"op": st.just("swap"), "a": st.integers(0, 30), "b": st.integers(0, 30),
+                                  "cross": st.integers(0, 3).map(lambda x: x != 0)})
 
 
 def _expected_sf(spec, cells, i, j):
@@ -960,11 +1069,24 @@ def reactors_execute(case):
     sfs = set()
     for a in core:
         an = tree.add("assembly", a, cn)
+        for b in a:
+            _tree_of_block(tree, b, an)
+
+    def sync_symmetry():
+        """(Re-)read the symmetry factor of every block, compare with the documented rule, store it on the tree."""
+        for an in tree.by_level["assembly"]:
+            _sync_assembly(an)
+
+    def _sync_assembly(an):
+        a = an.obj
         ij = a.spatialLocator.getCompleteIndices()
         esf = _expected_sf(spec, cells, int(ij[0]), int(ij[1]))
         areas = []
-        for b in a:
-            bn = _tree_of_block(tree, b, an)
+        for bn in an.children:
+            b = bn.obj
+            bn.sf = float(b.getSymmetryFactor())
+            for cnode in bn.children:
+                cnode.sf = bn.sf
             sfs.add(bn.sf)
             if bn.sf != esf and cart_full and bn.sf in (2.0, 4.0):
                 # known finding: CartesianBlock.getSymmetryFactor does not look at the domain; an odd-by-odd full core is
@@ -984,6 +1106,8 @@ def reactors_execute(case):
         if not an.area_ok:
             cn.area_ok = False
             out.label("assembly-areas-differ")
+
+    sync_symmetry()
     out.label("geom:%s/%s" % (spec["geom"], spec["symmetry"].split()[0]), "assemblies:%d" % min(len(core), 10))
     for s in sorted(sfs):
         out.label("sf:%g" % s)
@@ -1015,9 +1139,64 @@ def reactors_execute(case):
                 check_node(out, tree, n, snapshot, full=True, queries=qs, sample=case["sample"],
                            density=near and n.level != "assembly")
 
+    def block_areas(snapshot, nodes):
+        """Block.getArea() (hot; the cold flavour shares its cache key and is never asked) x height is the block volume."""
+        for bn in nodes:
+            agg = Agg(tree, bn, snapshot)
+            ah = bn.obj.getArea() * bn.obj.getHeight()
+            out.check(_close(ah, agg.vol), "additivity/area-block",
+                      lambda: "%r (symmetry factor %r): getArea()*height=%r, components give volume %r" % (bn.obj, bn.sf, ah, agg.vol))
+
     battery(snap, queries)
+    block_areas(snap, tree.by_level["block"])
+
+    def swap(op, step, snapshot):
+        assems_ = tree.by_level["assembly"]
+        if len(assems_) < 2 or spec["geom"] == "thetarz":
+            out.label("skip:swap-not-applicable")
+            return snapshot
+        cut = [n for n in assems_ if n.sf != 1.0]
+        n1 = n2 = None
+        if op["cross"] and cut:
+            n1 = cut[op["a"] % len(cut)]
+            pool = [n for n in assems_ if n.sf != n1.sf]
+            if pool:
+                n2 = pool[op["b"] % len(pool)]
+        if n2 is None:
+            n1 = assems_[op["a"] % len(assems_)]
+            pool = [n for n in assems_ if n is not n1]
+            n2 = pool[op["b"] % len(pool)]
+        a1, a2 = n1.obj, n2.obj
+        where = "step %d swap %r (factor %g) <-> %r (factor %g)" % (step, a1, n1.sf, a2, n2.sf)
+        out.label("op:swap", "swap:%g<->%g" % (max(n1.sf, n2.sf), min(n1.sf, n2.sf)))
+        if n1.sf != n2.sf:
+            out.nontrivial = True
+        for a in (a1, a2):  # whatever a reader caches is cached now
+            a.getVolume()
+            for b in a:
+                b.getArea()
+                b.getVolume()
+        loc1 = a1.spatialLocator
+        a1.moveTo(a2.spatialLocator)
+        a2.moveTo(loc1)
+        _sync_assembly(n1)
+        _sync_assembly(n2)
+        post = _snapshot(tree)
+        bad = [l for l in range(len(post)) if post[l] != snapshot[l]]
+        out.check(not bad, "move/changed-component-primitives",
+                  lambda: "%s: (N,V) of %r changed by the move" % (where, tree.leaf_nodes[bad[0]].obj))
+        qs = _queries(tree, cn, post, case["queries"])
+        for n in tree.nodes:
+            if n.level == "component":
+                continue
+            mine = n in (n1, n2) or n.parent in (n1, n2)
+            check_node(out, tree, n, post, full=mine, queries=qs, sample=case["sample"], density=mine and n.level == "block")
+        block_areas(post, n1.children + n2.children)
+        return post
+
     stats = {"sf": set()}
-    snap = run_program(out, tree, case["ops"], stats=stats)
+    snap = run_program(out, tree, case["ops"], stats=stats, handlers={"swap": swap})
+    block_areas(snap, tree.by_level["block"])
     if any(s != 1.0 for s in stats["sf"]):
         out.label("edited-under-symmetry-cut")
     battery(snap, _queries(tree, cn, snap, case["queries"]))
